@@ -52,6 +52,17 @@ P.update({
           TECH),
 })
 
+P.update({
+  'C05': (True, 'Ring.tla, Ring_Trace.tla',
+          'TLC checks WellFormed and FullList on Ring.tla over EVERY hash table of a small ring (collisions included) and every membership reachable by a few add/remove steps, for RF 1..3 and both DIVERSE_REPLICAS values; the real ConsistentHashRing / ConsistentHashingRouter / FastHashingRouter are driven with controlled tables (compute_ring_position rebound on the instance) and with real md5 / FNV-1a hashes over ALL 65537 ring positions (compressed to arcs after checking constancy); Ring_Trace.tla rebuilds the ring from independently computed reference positions, recomputes every preference list and evaluates the property clauses on the observed destination lists.',
+          'mmh3_ch excluded (mmh3 not installed); hashlib.md5 trusted; reference positions are a value oracle (TLC cannot evaluate md5)',
+          TECH),
+  'C06': (True, 'Ring.tla, Ring_Trace.tla',
+          'TLC proves the action property Stable and HistoryFreeModuloCollisions over every hash table of a small ring; recorded scenarios (controlled and real hashes, histories of up to 6 add/remove operations) are judged by Ring_Trace.tla: observed ring entries must equal add/bump/insort/remove applied to the reference hash positions after every step (compatibility with the published carbon_ch / fnv1a_ch algorithm), and the final routing must equal that of a freshly built ring (history independence; listed finding F3 where positions collide).',
+          'as C05; the fresh relay is taken to add the live destinations in their configured order',
+          TECH),
+})
+
 PENDING_REASON = 'check not built yet in this round (planned per DESIGN.md section 5); not claimed until its TLA+ model and conformance harness exist'
 
 
